@@ -1,0 +1,21 @@
+//go:build verif
+
+package blob
+
+// Contracts for the deductive verifier in /verif (govc). Comments only; build tag "verif".
+
+// C19: contract on the declaration of the module's RPC API. Every method carries one of the four
+// permission levels and is at least as restricted as the policy below, which is written from the
+// property text (submitting data needs write). The table is closed: a method without a policy entry is an undischarged
+// obligation.
+//@ permtable API
+//@   property C19
+//@   closed
+//@   require Submit write
+//@   require Get public
+//@   require GetAll public
+//@   require GetProof public
+//@   require Included public
+//@   require GetCommitmentProof public
+//@   require Subscribe public
+//@ end
